@@ -1268,12 +1268,12 @@ Section FractionProofs.
   Proof.
     intros Hl Hu. assert (Hp := wf_pos h W).
     destruct (fraction_range l2 u2) as (x2 & E2 & R20 & R21).
-    rewrite hfraction_eq in *.
+    rewrite (hfraction_eq l2 u2) in E2 |- *. rewrite (hfraction_eq l1 u1).
     destruct (ext_leb u1 l1) eqn:E1.
     - exists 0, x2. split; [reflexivity|]. split; [exact E2|lra].
     - apply ext_leb_false in E1.
       assert (E2' : ext_leb u2 l2 = false).
-      { apply ext_leb_false. clear - E1 Hl Hu. destruct l1, u1, l2, u2; ext_brute. }
+      { destruct (ext_leb u2 l2) eqn:X; auto. exfalso. clear - E1 Hl Hu X. ext_brute. }
       rewrite E2' in *. eexists; eexists. split; [reflexivity|]. split; [reflexivity|].
       assert (A := cdf_mono l2 l1 Hl). assert (B := cdf_mono u1 u2 Hu).
       apply Qmult_lt_0_le_reg_r with (z := h_count h); auto.
@@ -1289,3 +1289,55 @@ Section FractionProofs.
     rewrite cdf_pinf. assert (Hp := wf_pos h W). rewrite cdf_ninf. field. lra.
   Qed.
 End FractionProofs.
+
+(* ================================================================== the code before e11e8e804f *)
+(* custom buckets (0,1]:3, (1,2]:4, three NaN observations (count 10, sum NaN) *)
+Definition old_witness : hist :=
+  mkH 10 RNaN true true false [mkB (Fin 0) (Fin 1) 3; mkB (Fin 1) (Fin 2) 4].
+
+Lemma hquantile_old_refuted :
+  exists h q1 q2,
+    sum_nan h = true /\ 0 <= q1 /\ q1 <= q2 /\ q2 <= 1 /\
+    forall iexp,
+      ~ res_le (hquantile_old iexp q1 h) (hquantile_old iexp q2 h) /\
+      res_le (hquantile iexp q1 h) (hquantile iexp q2 h).
+Proof.
+  exists old_witness, (1 # 4), (5 # 16).
+  split; [reflexivity|]. split; [lra|]. split; [lra|]. split; [lra|].
+  intro iexp. split.
+  - vm_compute. discriminate.
+  - vm_compute. reflexivity.
+Qed.
+
+(* non-vacuity: a well-formed histogram with negative, zero and positive buckets *)
+Definition example_hist : hist :=
+  mkH 10 (R (Fin 3)) false true true
+      [mkB (Fin (-2)) (Fin (-1)) 2; mkB (Fin (-1 # 2)) (Fin (1 # 2)) 3; mkB (Fin 1) (Fin 2) 0; mkB (Fin 2) (Fin 4) 5].
+
+Lemma example_hist_wf : wf_hist example_hist.
+Proof.
+  constructor; simpl.
+  - lra.
+  - reflexivity.
+  - vm_compute. reflexivity.
+  - repeat constructor; simpl; lra.
+  - repeat constructor; simpl; try discriminate;
+      try (intros (A & _); discriminate); try (intros _; eexists; eexists; split; reflexivity).
+  - repeat constructor.
+Qed.
+
+Definition example_custom : hist :=
+  mkH 8 (R (Fin 3)) true true false
+      [mkB NInf (Fin (-10)) 2; mkB (Fin (-10)) (Fin 5) 2; mkB (Fin 5) (Fin 20) 2; mkB (Fin 20) PInf 2].
+
+Lemma example_custom_wf : wf_hist example_custom.
+Proof.
+  constructor; simpl.
+  - lra.
+  - reflexivity.
+  - vm_compute. reflexivity.
+  - repeat constructor; simpl; lra.
+  - repeat constructor; simpl; try discriminate;
+      try (intros (A & B); discriminate); try (intros (A & B); discriminate B).
+  - repeat constructor.
+Qed.
